@@ -135,7 +135,7 @@ OnDiag(r, ev) ==
 
 OnExit(r, ev) ==
   LET d == r.d IN
-  /\ Check(d.phase = "done" /\ (ev.why = "quit") = (d.why = "quit"), "control",
+  /\ Check(d.phase = "done" /\ (ev.why = "quit") = (d.why = "quit"), IF d.phase = "prompt" \/ ev.why = "quit" THEN "prompt" ELSE "control",
            <<"exit", ev.why, "in phase", d.phase, "expected end", d.why, "index", d.idx>>)
   /\ Check(r.msg = << >>, "banner", <<"message not shown", r.msg>>)
   /\ run' = [r EXCEPT !.d.phase = "done", !.d.why = IF d.phase = "done" THEN d.why ELSE "unexpected", !.msg = << >>]
